@@ -23,6 +23,7 @@ import (
 	"os"
 	"sort"
 	"sync"
+	"time"
 
 	"verif/h"
 )
@@ -63,26 +64,23 @@ func main() {
 	}
 	schemaCoverage()
 
-	nFmt := run.N(600, 12000)
-	run.ParallelRange(0, nFmt, 14, formatCase)
-	nCross := run.N(400, 6000)
-	run.ParallelRange(100000, nCross, 14, crossEndCase)
-	nVal := run.N(3000, 45000)
-	run.ParallelRange(200000, nVal, 14, validationCase)
-	nFlag := run.N(900, 12000)
-	run.ParallelRange(300000, nFlag, 14, flagCase)
-	nLit := run.N(1500, 30000)
-	run.ParallelRange(400000, nLit, 14, literalCase)
+	phase := func(name string, f func()) {
+		t0 := time.Now()
+		f()
+		run.Set("phase_seconds_"+name, time.Since(t0).Seconds())
+	}
+	phase("formats", func() { run.ParallelRange(0, run.N(900, 12000), 14, formatCase) })
+	phase("both_ends", func() { run.ParallelRange(100000, run.N(600, 8000), 14, crossEndCase) })
+	phase("validation", func() { run.ParallelRange(200000, run.N(4500, 60000), 14, validationCase) })
+	phase("flags", func() { run.ParallelRange(300000, run.N(1500, 20000), 14, flagCase) })
+	phase("literals", func() { run.ParallelRange(400000, run.N(3000, 45000), 14, literalCase) })
 	if err := liveSetup(); err != nil {
 		fmt.Fprintln(os.Stderr, "live server:", err)
 		os.Exit(h.ExitHarnessError)
 	}
-	nLive := run.N(24, 240)
-	run.ParallelRange(500000, nLive, 6, liveCase)
-	nChildFlags := run.N(16, 160)
-	run.ParallelRange(600000, nChildFlags, 4, childFlagCase)
-	nChildEnv := run.N(6, 60)
-	run.ParallelRange(700000, nChildEnv, 3, childEnvCase)
+	phase("live", func() { run.ParallelRange(500000, run.N(32, 400), 6, liveCase) })
+	phase("child_flags", func() { run.ParallelRange(600000, run.N(24, 240), 4, childFlagCase) })
+	phase("child_env", func() { run.ParallelRange(700000, run.N(8, 80), 3, childEnvCase) })
 	live.srv.Close()
 
 	levelMu.Lock()
